@@ -1,5 +1,4 @@
 import UralModel.Lemmas.CanonRoundTrip
-import UralModel.Gen.C03Classes
 /-!
 # C03: what the cleaning pass deletes is never produced raw by the safe unquoters
 
@@ -15,7 +14,7 @@ This file has
 
 * the decision procedure for "a finite union of ranges is included in another one"
   (`subRanges`, sound by `subRanges_sound`), so that the inclusion is a `decide` over the
-  *regenerated* range lists (`Gen/C03Classes.lean`) and still a statement about all code points;
+  *regenerated* range lists (`Gen/C03Classes.lean`, used in `Props/C03Control.lean`) and still a statement about all code points;
 * the class-parametric form of "the unquoters bring in no character of the class"
   (`EscapedClass`, `mem_safelyUnquote_class`) and its lift to the printed result of
   `canonicalize_url` (`class_of_printed`).
@@ -145,22 +144,15 @@ theorem staysEscaped_high {c : Char} (h : staysEscaped c = true) : 0x80 ≤ c.to
 
 /-! ## what the safe unquoters keep escaped, from the regenerated tables -/
 
-/-- the regenerated configurations of the four `safely_unquote_*` partials
-(`[is partial of unquote, only_printable, normalize_space, lossless, unsafe is …, no other keyword]`) -/
-def partialsFlags : List (List Bool) :=
-  [Gen.Quote.authItemFlags, Gen.Quote.pathFlags, Gen.Quote.queryItemFlags, Gen.Quote.fragmentFlags]
-
-/-- all four are `partial(unquote, only_printable=True, …)` -/
-def onlyPrintable : Bool := partialsFlags.all fun f => f.getD 0 false && f.getD 1 false
-/-- all four are `partial(unquote, normalize_space=True, …)` -/
-def normalizeSpace : Bool := partialsFlags.all fun f => f.getD 0 false && f.getD 2 false
-
-/-- the code points a safe unquoter never hands out raw unless they were raw in its input:
-with `only_printable`, C0 controls and DEL (`_unquote_impl`: `b < b" " or b == b"\x7f"`, the
-escape is kept) and the class of `NON_PRINTABLE_RE` (regenerated; escaped again after
-decoding, raw occurrences included); with `normalize_space`, the space (`%20`) -/
-def escRanges : List (Nat × Nat) :=
-  (if onlyPrintable then (0, 0x1f) :: (0x7f, 0x7f) :: Gen.C03.nonPrintableRanges else []) ++
+/-- the code points a safe unquoter never hands out raw unless they were raw in its input, as
+a union of ranges: with `only_printable`, C0 controls and DEL (`_unquote_impl`:
+`b < b" " or b == b"\x7f"`, the escape is kept) and the class of `NON_PRINTABLE_RE`
+(`nonPrintable`: escaped again after decoding, raw occurrences included); with
+`normalize_space`, the space (`%20`).  Instantiated in `Props/C03Control.lean` with the
+regenerated flags of the four partials and the regenerated class of `NON_PRINTABLE_RE`. -/
+def escRangesOf (onlyPrintable normalizeSpace : Bool) (nonPrintable : List (Nat × Nat)) :
+    List (Nat × Nat) :=
+  (if onlyPrintable then (0, 0x1f) :: (0x7f, 0x7f) :: nonPrintable else []) ++
     (if normalizeSpace then [(0x20, 0x20)] else [])
 
 /-- membership of a character in a regenerated class -/
@@ -173,16 +165,17 @@ structure EscapedClass (K : Char → Bool) : Prop where
   ascii : ∀ c, K c = true → c.toNat < 0x80 → c.toNat ≤ 0x20 ∨ c.toNat = 0x7f
   high : ∀ c, K c = true → 0x80 ≤ c.toNat → staysEscaped c = true
 
-/-- from the two table facts — the class is included in `escRanges`, and the model's
+/-- from the two table facts — the class is included in `escRangesOf …`, and the model's
 `staysEscaped` is the regenerated `NON_PRINTABLE_RE` class — to the property of the model -/
-theorem escapedClass_of_tables (rs : List (Nat × Nat)) (hsub : subRanges rs escRanges = true)
-    (hnp : ∀ c : Char, staysEscaped c = inRanges Gen.C03.nonPrintableRanges c.toNat) :
+theorem escapedClass_of_tables (op ns : Bool) (np rs : List (Nat × Nat))
+    (hsub : ∀ n, inRanges rs n = true → inRanges (escRangesOf op ns np) n = true)
+    (hnp : ∀ c : Char, staysEscaped c = inRanges np c.toNat) :
     EscapedClass (inClass rs) := by
   have key : ∀ c : Char, inClass rs c = true →
       c.toNat ≤ 0x20 ∨ c.toNat = 0x7f ∨ staysEscaped c = true := by
     intro c hc
-    have h := subRanges_sound hsub c.toNat hc
-    unfold escRanges at h
+    have h := hsub c.toNat hc
+    unfold escRangesOf at h
     rw [inRanges_append, Bool.or_eq_true] at h
     rcases h with h | h
     · split at h
@@ -397,5 +390,212 @@ theorem noClass_safelyUnquote (U : List UInt8) {K : Char → Bool} (hK : Escaped
     have := h c hm
     have h2 : isControlChar c = true := by rw [isControlChar_iff]; omega
     rw [this] at h2; cases h2
+
+/-! ## the printed result of `canonicalize_url` -/
+
+theorem mem_urlunsplit {c : Char} {sp : Split} (h : c ∈ urlunsplit sp) :
+    c ∈ sp.scheme ∨ c ∈ sp.netloc ∨ c ∈ sp.path ∨ c ∈ sp.query ∨ c ∈ sp.fragment.getD [] ∨
+      c ∈ [':', '/', '?', '#'] := by
+  unfold urlunsplit at h
+  simp only at h
+  cases hf : sp.fragment with
+  | none =>
+    rw [hf] at h
+    simp only at h
+    repeat' split at h
+    all_goals
+      try simp only [List.mem_append, List.mem_cons, List.not_mem_nil, or_false, List.append_assoc,
+        List.cons_append, List.nil_append] at h
+      simp only [List.mem_cons, List.not_mem_nil, or_false, Option.getD_none]
+      grind
+  | some f =>
+    rw [hf] at h
+    simp only at h
+    repeat' split at h
+    all_goals
+      try simp only [List.mem_append, List.mem_cons, List.not_mem_nil, or_false, List.append_assoc,
+        List.cons_append, List.nil_append] at h
+      simp only [List.mem_cons, List.not_mem_nil, or_false, Option.getD_some]
+      grind
+
+theorem quoteSafe_printable {c : Char} (h : quoteSafe c = true) : Printable c := by
+  unfold Printable
+  simp only [quoteSafe, isAsciiAlpha, isAsciiDigit, Bool.or_eq_true, decide_eq_true_eq,
+    char_le_iff] at h
+  have e1 : 'a'.toNat = 97 := rfl
+  have e2 : 'z'.toNat = 122 := rfl
+  have e3 : 'A'.toNat = 65 := rfl
+  have e4 : 'Z'.toNat = 90 := rfl
+  have e5 : '0'.toNat = 48 := rfl
+  have e6 : '9'.toNat = 57 := rfl
+  rw [e1, e2, e3, e4, e5, e6] at h
+  rcases h with (((((h | h) | h) | h) | h) | h) | h
+  · omega
+  · omega
+  · subst h; decide
+  · subst h; decide
+  · subst h; decide
+  · subst h; decide
+  · subst h; decide
+
+theorem isSchemeChar_printable {c : Char} (h : isSchemeChar c = true) : Printable c := by
+  unfold Printable
+  simp only [isSchemeChar, isAsciiAlpha, isAsciiDigit, Bool.or_eq_true, decide_eq_true_eq,
+    char_le_iff] at h
+  have e1 : 'a'.toNat = 97 := rfl
+  have e2 : 'z'.toNat = 122 := rfl
+  have e3 : 'A'.toNat = 65 := rfl
+  have e4 : 'Z'.toNat = 90 := rfl
+  have e5 : '0'.toNat = 48 := rfl
+  have e6 : '9'.toNat = 57 := rfl
+  rw [e1, e2, e3, e4, e5, e6] at h
+  rcases h with (((h | h) | h) | h) | h
+  · omega
+  · omega
+  · subst h; decide
+  · subst h; decide
+  · subst h; decide
+
+theorem printable_lowerChar {c : Char} (h : Printable c) : Printable (lowerChar c) := by
+  unfold Printable at *
+  rw [lowerChar_toNat]
+  split <;> omega
+
+theorem digit_printable {c : Char} (h : isAsciiDigit c = true) : Printable c := by
+  unfold Printable
+  simp only [isAsciiDigit, decide_eq_true_eq, char_le_iff] at h
+  have e5 : '0'.toNat = 48 := rfl
+  have e6 : '9'.toNat = 57 := rfl
+  rw [e5, e6] at h
+  omega
+
+theorem noClass_safelyQuote {K : Char → Bool} (hK : EscapedClass K) (s : Str) :
+    ∀ c ∈ safelyQuote s, K c = false := by
+  intro c hc
+  rcases mem_safelyQuote_cases hc with h1 | rfl | h1
+  · exact hK.not_printable (quoteSafe_printable h1)
+  · exact hK.not_printable (by unfold Printable; decide)
+  · exact hK.not_printable (by have := isHexDigit_toNat h1; unfold Printable; omega)
+
+theorem noClass_requote {K : Char → Bool} (hK : EscapedClass K) (quoted : Bool) (U : List UInt8)
+    {s : Str} (h : NoCtl s) : ∀ c ∈ requote quoted (safelyUnquote U) s, K c = false := by
+  unfold requote
+  split
+  · exact noClass_safelyQuote hK _
+  · exact noClass_safelyUnquote U hK h
+
+theorem mem_getD_canonOpt_requote {q : Bool} {unq : Str → Str} {o : Option Str} {c : Char}
+    (h : c ∈ (canonOpt q unq o).getD []) : ∃ u, o = some u ∧ c ∈ requote q unq u := by
+  cases o with
+  | none => simp [canonOpt] at h
+  | some u =>
+    by_cases hu : u.isEmpty = true
+    · have : u = [] := by simpa using hu
+      subst this
+      simp [canonOpt] at h
+    · simp only [canonOpt, hu, Bool.false_eq_true, if_false, Option.getD_some] at h
+      exact ⟨u, rfl, h⟩
+
+section
+variable {puny : Str → Str} (hpc : PunyClean puny) {K : Char → Bool} (hK : EscapedClass K)
+  (quoted sf : Bool) {S rest : Str} {p : Parsed} (h : FromParse S rest p)
+include hpc hK h
+
+theorem noClass_path : ∀ c ∈ (canonComps puny quoted sf p).path, K c = false := by
+  rw [canonComps_path_eq hpc quoted sf h]
+  intro c hc
+  cases quoted with
+  | true =>
+    simp only [finishPath, if_true] at hc
+    exact noClass_safelyQuote hK _ c hc
+  | false =>
+    simp only [finishPath, Bool.false_eq_true, if_false] at hc
+    refine noClass_safelyUnquote _ hK ?_ c hc
+    intro d hd
+    rcases mem_canonPath hd with h1 | rfl
+    · exact noCtl_safelyUnquote _ (noCtl_of_sub hpc h h.split.sub_path) d h1
+    · decide
+
+theorem noClass_query : ∀ c ∈ (canonComps puny quoted sf p).query, K c = false := by
+  intro c hc
+  have hc' : c ∈ canonQuery quoted p.query := by simpa [canonComps] using hc
+  rcases mem_canonQuery hc' with rfl | rfl | ⟨y, hy, hcy⟩
+  · exact hK.not_printable (by unfold Printable; decide)
+  · exact hK.not_printable (by unfold Printable; decide)
+  · exact noClass_requote hK quoted _
+      (noCtl_of_sub hpc h (fun x hx => h.split.sub_query (hy hx))) c hcy
+
+theorem noClass_fragment : ∀ c ∈ (canonComps puny quoted sf p).fragment.getD [], K c = false := by
+  intro c hc
+  have hc' : c ∈ (canonOpt quoted unquoteFragment (if sf then none else some p.fragment)).getD [] := by
+    simpa [canonComps] using hc
+  obtain ⟨u, hu, hcu⟩ := mem_getD_canonOpt_requote hc'
+  have hsub : u ⊆ rest := by
+    cases sf
+    · simp only [Bool.false_eq_true, if_false, Option.some.injEq] at hu
+      subst hu; exact h.split.sub_fragment
+    · simp at hu
+  exact noClass_requote hK quoted _ (noCtl_of_sub hpc h hsub) c hcu
+
+/-- a character of the class in the printed authority was raw in the parsed hostname (the one
+component `canonicalize_url` does not unquote) -/
+theorem class_netloc {c : Char} (hc : c ∈ (canonParts puny quoted sf p).netloc)
+    (hk : K c = true) (hbad : isPunyBad c = true) : ∃ h0, p.hostname = some h0 ∧ c ∈ h0 := by
+  have hnp : ∀ {d : Char}, Printable d → c ≠ d := by
+    intro d hd e; subst e
+    have := hK.not_printable hd; rw [hk] at this; cases this
+  have hn := noCtl_netloc_old hpc h
+  simp only [canonParts, unsplitNetloc_eq] at hc
+  rcases List.mem_append.1 hc with h1 | h1
+  · exfalso
+    rcases mem_authPart h1 with h2 | h2 | e | e
+    · obtain ⟨u, hsub, _, _, hcu⟩ := user_mem hpc quoted sf h h2
+      have := noClass_requote hK quoted _ (NoCtl.of_subset hsub hn) c hcu
+      rw [hk] at this; cases this
+    · obtain ⟨u, hsub, _, hcu⟩ := pass_mem hpc quoted sf h h2
+      have := noClass_requote hK quoted _ (NoCtl.of_subset hsub hn) c hcu
+      rw [hk] at this; cases this
+    · exact hnp (d := ':') (by unfold Printable; decide) e
+    · exact hnp (d := '@') (by unfold Printable; decide) e
+  · rcases List.mem_append.1 h1 with h2 | h2
+    · rcases mem_hostPart h2 with h3 | e | e
+      · obtain ⟨h0, _, _, hh, hch⟩ := host_mem hpc quoted sf h h3
+        exact ⟨h0, hh, canonHost_bad puny hpc h0 hbad hch⟩
+      · exact absurd e (hnp (d := '[') (by unfold Printable; decide))
+      · exact absurd e (hnp (d := ']') (by unfold Printable; decide))
+    · rcases mem_portPart h2 with e | h3
+      · exact absurd e (hnp (d := ':') (by unfold Printable; decide))
+      · exact absurd rfl (hnp (digit_printable h3))
+
+/-- **the printed canonical form holds no character of an escaped class — except what was raw
+in the parsed hostname** -/
+theorem class_of_printed {c : Char} (hc : c ∈ urlunsplit (canonParts puny quoted sf p))
+    (hk : K c = true) (hbad : isPunyBad c = true) : ∃ h0, p.hostname = some h0 ∧ c ∈ h0 := by
+  have hnp : ∀ {d : Char}, Printable d → c ≠ d := by
+    intro d hd e; subst e
+    have := hK.not_printable hd; rw [hk] at this; cases this
+  have hscheme : (canonParts puny quoted sf p).scheme = lower S := h.split.scheme
+  rcases mem_urlunsplit hc with h1 | h1 | h1 | h1 | h1 | h1
+  · exfalso
+    rw [hscheme] at h1
+    simp only [Py.lower, List.mem_map] at h1
+    obtain ⟨d, hd, rfl⟩ := h1
+    exact hnp (printable_lowerChar (isSchemeChar_printable (schemeShaped_mem h.shaped d hd))) rfl
+  · exact class_netloc hpc hK quoted sf h h1 hk hbad
+  · have := noClass_path hpc hK quoted sf h c h1
+    rw [hk] at this; cases this
+  · have := noClass_query hpc hK quoted sf h c h1
+    rw [hk] at this; cases this
+  · have := noClass_fragment hpc hK quoted sf h c h1
+    rw [hk] at this; cases this
+  · exfalso
+    simp only [List.mem_cons, List.not_mem_nil, or_false] at h1
+    rcases h1 with e | e | e | e
+    · exact hnp (d := ':') (by unfold Printable; decide) e
+    · exact hnp (d := '/') (by unfold Printable; decide) e
+    · exact hnp (d := '?') (by unfold Printable; decide) e
+    · exact hnp (d := '#') (by unfold Printable; decide) e
+
+end
 
 end Ural.C03Control
